@@ -111,6 +111,23 @@ impl Codec {
     pub fn config(&self) -> &ServiceConfig {
         &self.config
     }
+
+    /// Rendering of the private decode/encode state, for the external model-checking harness
+    /// (state keys only; compiled only with `--cfg actix_web_verif`).
+    #[cfg(actix_web_verif)]
+    #[doc(hidden)]
+    pub fn verif_snapshot(&self) -> String {
+        format!(
+            "{:?}",
+            (
+                &self.payload,
+                self.flags,
+                self.version,
+                self.conn_type,
+                &self.pending
+            )
+        )
+    }
 }
 
 impl Decoder for Codec {
